@@ -1,8 +1,10 @@
 (* C03 — pastify(): same robustness, delayed by the horizon.  The guard
    future_above_past is a genuine limitation of delay-based pastification
    (refuted without it below, and recorded as a known finding). *)
-From Coq Require Import List Arith ZArith Bool Lia.
+From Coq Require Import List Arith ZArith QArith Bool Lia String.
 From RV Require Import Val Syntax Rho Offline ListFacts OfflineCorrect Online OnlineCorrect Extend Pastify PastifyCorrect Transfer ExtZ.
+From RV Require Import Units NodeName PyNode PastifyGen PastifyGenCorrect.
+Close Scope Q_scope.
 Import ListNotations.
 
 (* the rho-level statement, for both delay schemes (STL: once[d,d]; LTL: d x prev) *)
@@ -57,6 +59,60 @@ Proof.
   repeat split; try reflexivity. vm_compute. discriminate.
 Qed.
 Print Assumptions C03_refuted_past_over_future.
+
+(* the pastifier and the horizon visitor AS TRANSLATED FROM THE PYTHON SOURCE (tools/py2coq_pastifier.py -> PastifyGen.v, regenerated on
+   every build): on a syntax tree n of rtamt whose bounds -- in whatever units they are written -- are whole numbers of sampling periods
+   (erase n = Some f), bounded future, begin <= end: the horizon the code computes is hor f periods (expressed in default units), the
+   tree the code builds erases to the hand model's pastify f (hor f), hence (inside the guard) the i-th update of the monitor of that
+   tree returns the robustness of the original specification at i - hor f on the trace seen so far *)
+Theorem C03_generated_pastifier :
+  forall (VS : Val) (AR : Arith VS) (vidx : string -> string -> nat) (cval : string -> V) (du : tunit) (p : Z) (pu : tunit)
+         (n : NodeName.node) (f : formula),
+    (0 < p)%Z -> erase vidx cval du p pu n = Some f -> bounded_future f = true -> wf_bounds f = true ->
+    exists (h : Q) (m : NodeName.node),
+      gen_StlHorizon (sample_of du p pu) (to_default_unit du n) = Some h /\
+      (h == inject_Z (Z.of_nat (hor f)) * sample_of du p pu)%Q /\
+      gen_stl_pastify du (sample_of du p pu) n = Some m /\
+      erase vidx cval du p pu m = Some (pastify DelayOnce f (hor f)) /\
+      (future_above_past f = true -> forall (w : trace) (len i : nat) (d : V), hor f <= i -> i < len ->
+         nth i (snd (mon_run AR (fun _ _ => PStd) [pastify DelayOnce f (hor f)] dict_init w 0 len)) d
+         = rho AR (fun _ _ => PStd) f w (S i) (i - hor f)).
+Proof.
+  intros VS AR vidx cval du p pu n f Hp He Hb Hw.
+  destruct (@gen_stl_pastify_ok VS vidx cval du p pu Hp n f He Hb Hw) as [h [m [Hh [Rh [Hm [_ Em]]]]]].
+  exists h, m. repeat split; try assumption.
+  intros Hg w len i d Hi Hl. apply C03_online; assumption.
+Qed.
+Print Assumptions C03_generated_pastifier.
+
+(* the same for the LTL pastifier (ints, delays by nested previous) on trees of LTL classes *)
+Theorem C03_generated_ltl_pastifier :
+  forall (VS : Val) (AR : Arith VS) (vidx : string -> string -> nat) (cval : string -> V) (du : tunit) (p : Z) (pu : tunit)
+         (n : NodeName.node) (f : formula),
+    ltl_node n = true -> erase vidx cval du p pu n = Some f -> bounded_future f = true -> wf_bounds f = true ->
+    exists (m : NodeName.node),
+      gen_LtlHorizon n = Some (Z.of_nat (hor f)) /\ gen_ltl_pastify n = Some m /\
+      erase vidx cval du p pu m = Some (pastify DelayPrev f (hor f)) /\
+      (future_above_past f = true -> forall (w : trace) (len i : nat) (d : V), hor f <= i -> i < len ->
+         nth i (snd (mon_run AR (fun _ _ => PStd) [pastify DelayPrev f (hor f)] dict_init w 0 len)) d
+         = rho AR (fun _ _ => PStd) f w (S i) (i - hor f)).
+Proof.
+  intros VS AR vidx cval du p pu n f Hl He Hb Hw.
+  destruct (@gen_ltl_pastify_ok VS vidx cval du p pu n f Hl He Hb) as [m [Hh [Hm [_ Em]]]].
+  exists m. repeat split; try assumption.
+  intros Hg w len i d Hi Hlen. apply C03_online; assumption.
+Qed.
+Print Assumptions C03_generated_ltl_pastifier.
+
+(* the generated functions run: always[1s,2000ms](x >= 1) and next(not y) with a period of 500 ms, default unit s *)
+Example C03_generated_nonvacuous :
+  let n := NBin b_and (NTUn t_alw {| bnum := 1; bden := 1; bunit := Some US |} {| bnum := 2000; bden := 1; bunit := Some UMS |}
+                         (NBin (b_pred CGeq) (NVar "x" "") (NConst "1.0")))
+                      (NUn u_next (NUn u_not (NVar "y" ""))) in
+  gen_StlHorizon (sample_of US 500 UMS) (to_default_unit US n) = Some (2 # 1)%Q /\
+  option_map nname (gen_stl_pastify US (sample_of US 500 UMS) n)
+  = Some "(historically[0,1]((x)>=(1.0)))and(once[3/2,3/2](not(y)))"%string.
+Proof. cbv zeta. split; vm_compute; reflexivity. Qed.
 
 Example C03_nonvacuous :
   let p : @formula ExtZVal := And (EvT 1 2 (Pred CGeq (Var 0) (Const (Fin 1)))) (Next (Not (AlwT 0 1 (Pred CLt (Var 0) (Const (Fin 2)))))) in
